@@ -594,6 +594,75 @@ pub mod xp {
 }
 """
 
+
+HAND_O = """
+/// hand-written structure member: layout of a single-trait object whose context AND temporary storage are not zero-sized
+pub mod xo {
+    #![allow(unused_variables, unused_mut, clippy::all)]
+    use h_objbase::support::*;
+    use cglue::*;
+    #[cglue_trait]
+    pub trait Inner {
+        fn iv(&self) -> u64;
+    }
+    #[cglue_trait]
+    pub trait Outer {
+        #[wrap_with_obj_ref(Inner)]
+        type Kid: Inner + 'static;
+        fn kid(&self) -> &Self::Kid;
+        fn ov(&self) -> u64;
+    }
+    pub struct KidImp(pub u64);
+    impl Inner for KidImp {
+        fn iv(&self) -> u64 {
+            self.0
+        }
+    }
+    #[repr(C)]
+    pub struct OuterImp {
+        pub id: u64,
+        pub kid: KidImp,
+    }
+    impl Outer for OuterImp {
+        type Kid = KidImp;
+        fn kid(&self) -> &KidImp {
+            &self.kid
+        }
+        fn ov(&self) -> u64 {
+            self.id
+        }
+    }
+    pub const DESC: &str = "single-trait object with a CArc context and non-empty temporary return storage: {vtable, instance, context, temporary storage}";
+    pub fn raw_check() -> Result<u64, (String, String)> {
+        let arc = ::std::sync::Arc::new(5u64);
+        let ctx = cglue::arc::CArc::<u64>::from(arc.clone());
+        let obj = trait_obj!((OuterImp { id: 77, kid: KidImp(78) }, ctx) as Outer);
+        if obj.ov() != 77 || obj.kid().iv() != 78 {
+            return Err(("objlayout:dispatch".into(), "object does not dispatch".into()));
+        }
+        let words = words_of(&obj);
+        // vtable pointer, CBox {instance, drop_fn}, CArc {instance, clone_fn, drop_fn}, then the temporary storage
+        if words.len() < 7 {
+            return Err(("objlayout:size".into(), format!("object is {} words, expected at least 7", words.len())));
+        }
+        let first_entry: u64 = unsafe {
+            let f: extern "C" fn(*const ::core::ffi::c_void) -> u64 = ::core::mem::transmute(*((words[0] as *const usize).add(1)));
+            f((&obj as *const _ as *const usize).add(1) as *const ::core::ffi::c_void)
+        };
+        if first_entry != 77 {
+            return Err(("objlayout:vtbl".into(), "word 0 is not the vtable / the container does not start at word 1".into()));
+        }
+        if words[1] == 0 || unsafe { *(words[1] as *const u64) } != 77 || words[2] == 0 {
+            return Err(("objlayout:instance".into(), "words 1-2 are not the CBox {instance, drop_fn}".into()));
+        }
+        if words[3] != ::std::sync::Arc::as_ptr(&arc) as usize || words[4] == 0 || words[5] == 0 {
+            return Err(("objlayout:context".into(), format!("words 3-5 are not the context {{instance, clone_fn, drop_fn}}: the container must be instance, context, temporary storage (word 3 = {:#x}, arc = {:#x})", words[3], ::std::sync::Arc::as_ptr(&arc) as usize)));
+        }
+        Ok(digest(&words.len()))
+    }
+}
+"""
+
 NSHARD = 8
 
 SHARD_TOML = """[package]
@@ -650,9 +719,12 @@ def main():
         if k == 0:
             reg.append("        (900001, tv::DESC, tv::raw_check as fn() -> Result<u64, (String, String)>),")
             chunks.append(HAND_TV)
+        if k == 2:
+            reg.append("        (900002, xo::DESC, xo::raw_check as fn() -> Result<u64, (String, String)>),")
+            chunks.append(HAND_O)
         reg.append("    ]")
         reg.append("}")
-        text = "// @generated by gen/objects_gen.py (tier %s, shard %d) — do not edit\nuse h_objbase::harness::TraitCase;\n" % (tier, k)
+        text = "// @generated by gen/objects_gen.py (tier %s, shard %d) — do not edit\n// (cglue-gen hard-codes `crate::trait_group` for borrowed wrapped returns)\n#[allow(unused_imports)]\nuse cglue::trait_group;\nuse h_objbase::harness::TraitCase;\n" % (tier, k)
         text += "\n".join(chunks) + "\n" + "\n".join(reg) + "\n"
         write_if_changed(os.path.join(out_dir, name, "Cargo.toml"), SHARD_TOML % name)
         write_if_changed(os.path.join(out_dir, name, "src", "lib.rs"), text)
